@@ -66,6 +66,9 @@ type subscriptionImpl struct {
 	done       bool
 	mu         sync.Mutex // Should be a RWMutex because of the .IsClosed() method, but sync.RWMutex is 30% slower.
 	finalizers []func()
+	// running is set while Unsubscribe executes the finalizers and closed once
+	// the last one has returned.
+	running chan struct{}
 }
 
 // Add receives a finalizer to execute upon unsubscription. When `teardown`
@@ -128,8 +131,14 @@ func (s *subscriptionImpl) Unsubscribe() {
 
 	finalizers := s.finalizers
 	s.finalizers = make([]func(), 0)
+	running := make(chan struct{})
+	s.running = running
 	s.mu.Unlock()
 	verifPoint("subscription.unsub.unlocked")
+
+	// Wait() must not return on another goroutine while the finalizers are
+	// still running here.
+	defer close(running)
 
 	var errs []error
 
@@ -173,11 +182,28 @@ func (s *subscriptionImpl) IsClosed() bool {
 func (s *subscriptionImpl) Wait() {
 	ch := make(chan struct{}, 1)
 
+	s.mu.Lock()
+
+	if s.done {
+		// Already disposed, but the finalizers may still be running on the
+		// goroutine that called Unsubscribe: the subscription is only over -
+		// and its resources released - once they have returned.
+		running := s.running
+		s.mu.Unlock()
+
+		if running != nil {
+			<-running
+		}
+
+		return
+	}
+
 	// There is no guarantee that this callback will be the last finalizer
 	// added to this subscription.
-	s.Add(func() {
+	s.finalizers = append(s.finalizers, func() {
 		ch <- struct{}{}
 	})
+	s.mu.Unlock()
 
 	<-ch
 	close(ch)
